@@ -595,5 +595,8 @@ func driveC05(o opts) error {
 			Oracle:     oracle,
 		})
 	}
+	if err := c05Collections(o, g, w); err != nil {
+		return err
+	}
 	return w.Flush()
 }
